@@ -214,7 +214,10 @@ def step (s : Unit) (op : List String) (impl : Option (List String)) : Unit × S
         | none => false
       let verdict := match impl with
         | none => "-"
-        | some ["hang"] => if acyclic then "FAIL:resolve_terminates" else "FAIL:resolve_terminates_cyclic"
+        -- the implementation did not return: the whitelisted clause `…_cyclic` is used only when the
+        -- definitions are not acyclic AND the model does not terminate either
+        | some ["hang"] =>
+          if !acyclic && res == .diverge then "FAIL:resolve_terminates_cyclic" else "FAIL:resolve_terminates"
         | some ["exc:bpp"] => if acyclic then "FAIL:resolve_fixed_point" else "-"
         | some (_ :: t) =>
           match parsePairs t with
